@@ -118,6 +118,7 @@ func main() {
 		bases = append(bases, base{name, d, data})
 	}
 	add("custom-unmarshalers", []byte(grammar.CustomSpec))
+	add("repeated-inline-constructs", []byte(grammar.RepeatsSpec))
 	// strings with line breaks (pattern, description, default, enum members, example) in every
 	// chomping situation: no, one and two trailing line breaks, several lines
 	add("multi-line-strings", []byte(`{"openapi":"3.0.3","info":{"title":"t","version":"1","description":"first line\nsecond line\n"},"paths":{
